@@ -57,7 +57,7 @@ class Chooser:
 
 
 def explore(run_fn: Callable[[Chooser], Any], bound: int, on_exec: Callable[[Chooser, Any], None],
-            max_execs: int | None = None, cache_states: bool = False) -> dict:
+            max_execs: int | None = None, cache_states: bool = False, shard: tuple | None = None) -> dict:
     """Depth-first enumeration of all executions with at most `bound` deviations.
     Returns {'executions', 'capped', 'max_points'}."""
     stack: list[list[int]] = [[]]
@@ -66,6 +66,7 @@ def explore(run_fn: Callable[[Chooser], Any], bound: int, on_exec: Callable[[Cho
     capped = False
     visited: dict | None = {} if cache_states else None
     pruned = 0
+    n_root_alt = [0]
     while stack:
         if max_execs is not None and n_exec >= max_execs:
             capped = True
@@ -77,7 +78,9 @@ def explore(run_fn: Callable[[Chooser], Any], bound: int, on_exec: Callable[[Cho
             raise InternalError(f"replay divergence: execution ended after {len(ch.choices)} points, prefix has {len(prefix)}")
         n_exec += 1
         max_points = max(max_points, len(ch.points))
-        on_exec(ch, result)
+        root = not prefix
+        if not (root and shard is not None and shard[0] != 0):
+            on_exec(ch, result)  # the root execution belongs to shard 0
         dev = ch.deviations(len(prefix))
         end = len(ch.points)
         if ch.pruned_from is not None:
@@ -88,6 +91,11 @@ def explore(run_fn: Callable[[Chooser], Any], bound: int, on_exec: Callable[[Cho
             c = dev + (1 if costly else 0)
             if c <= bound:
                 for alt in range(n - 1, 0, -1):
+                    if root and shard is not None:
+                        # partition of the first-level alternatives among independent shards
+                        n_root_alt[0] += 1
+                        if n_root_alt[0] % shard[1] != shard[0]:
+                            continue
                     stack.append(ch.choices[:i] + [alt])
             if ch.choices[i] != 0 and costly:
                 dev += 1
